@@ -9,7 +9,7 @@ import sys
 root = os.path.join(os.path.dirname(os.path.dirname(os.path.abspath(__file__))), "seeded")
 last = {}
 for line in open(sys.argv[1]):
-    m = re.match(r"(C\d\d)-([AB]): (.*)", line)
+    m = re.match(r"(C\d\d)-([A-Z]): (.*)", line)
     if m:
         last[f"{m.group(1)}-{m.group(2)}"] = m.group(3).strip()
 for sid in sorted(os.listdir(root)):
